@@ -343,7 +343,10 @@ def write_evidence(pid, cfg, tier, seed, results, violations, known_hits, undeci
             for a in r.get('assumptions', []):
                 assumptions.append('%s: %s' % (r['unit'], a))
             for a in r.get('dropped_debug_asserts', []):
-                assumptions.append('%s: debug_assert dropped from the verified text (unchecked panic obligation): %s' % (r['unit'], a))
+                if '(X7)' in a:
+                    assumptions.append('%s: %s' % (r['unit'], a))
+                else:
+                    assumptions.append('%s: debug_assert dropped from the verified text (unchecked panic obligation): %s' % (r['unit'], a))
             for vf in r.get('verus_functions', []):
                 if len(samples) < 40:
                     samples.append({'unit': r['unit'], 'verus_function': vf['function'], 'mode': vf['mode'], 'rlimit': vf['rlimit'], 'proved': vf['success']})
